@@ -3,6 +3,7 @@
 from __future__ import annotations
 
 import ast
+import builtins as builtins_mod
 
 from . import facts as F
 from . import prims as PR
@@ -74,6 +75,38 @@ class ExprMixin:
         # enclosing function's locals (closures): look up the dynamic parent env is not
         # modelled; closures in this package only read `tmp`
         cl = getattr(st, "env", {}).get("<closure>")
+        # a local of this function (it is assigned somewhere in it) that no path to here has bound: UnboundLocalError
+        fnode = frame.func.node
+        cache = getattr(fnode, "_local_stores", None)
+        if cache is None:
+            cache = {x.id for x in ast.walk(fnode) if isinstance(x, ast.Name) and isinstance(x.ctx, ast.Store)} | \
+                    {h_.name for h_ in ast.walk(fnode) if isinstance(h_, ast.ExceptHandler) and h_.name}
+            fnode._local_stores = cache
+        mod = frame.func.module
+        gl = getattr(mod, "_global_names", None)
+        if gl is None:
+            gl = set(dir(builtins_mod))
+
+            def top(body):
+                for st_ in body:
+                    if isinstance(st_, (ast.FunctionDef, ast.AsyncFunctionDef, ast.ClassDef)):
+                        gl.add(st_.name)
+                    elif isinstance(st_, (ast.Import, ast.ImportFrom)):
+                        gl.update((a.asname or a.name).split(".")[0] for a in st_.names)
+                    elif isinstance(st_, (ast.Assign, ast.AnnAssign, ast.AugAssign)):
+                        for x in ast.walk(st_):
+                            if isinstance(x, ast.Name) and isinstance(x.ctx, ast.Store):
+                                gl.add(x.id)
+                    elif isinstance(st_, (ast.If, ast.Try, ast.With, ast.For, ast.While)):
+                        for fld in ("body", "orelse", "finalbody"):
+                            top(getattr(st_, fld, []) or [])
+                        for h_ in getattr(st_, "handlers", []) or []:
+                            top(h_.body)
+            top(mod.tree.body)
+            mod._global_names = gl
+        if isinstance(n.ctx, ast.Load) and (n.id in cache or n.id not in gl):
+            self.raise_star(st, out)
+            self.unbound.append((frame.func.qual, n.id, getattr(n, "lineno", 0)))
         return V(("unknown", f"name:{n.id}")), st
 
     @staticmethod
@@ -1228,7 +1261,8 @@ class ExprMixin:
             self._pending_on_yield = None
         self.stats["max_depth"] = max(self.stats["max_depth"], nf.depth)
         caller_env = st.env
-        o = self.call_body(f, st.set(env=env), nf)
+        # ("entered", f): the call was at least begun on this path (its own failure then explains what it did not achieve)
+        o = self.call_body(f, st.set(env=env, done=st.done | {("entered", qual)}), nf)
         for l, s in o.raises.items():
             out.add_raise(l, s.set(env=caller_env))
         callrec["raises"] = sorted(o.raises, key=str)
